@@ -942,7 +942,7 @@ fn replay_chunk(work: &Path, cfg: &Cfg, cases: Vec<Value>, fan_on: bool, max_fai
                 let mut tr = Vec::new();
                 let mut s2 = Stats::default();
                 run_log(&mut w, &case, Some(&mut tr), &mut s2);
-                recs.push(json!({"type": "state", "log": case["log"], "heads": case["heads"], "expected": expected, "actual": actual, "trace": tr}));
+                recs.push(json!({"type": "state", "obj": case["obj"], "log": case["log"], "heads": case["heads"], "expected": expected, "actual": actual, "trace": tr}));
             }
             continue;
         }
@@ -1010,9 +1010,9 @@ fn replay_chunk(work: &Path, cfg: &Cfg, cases: Vec<Value>, fan_on: bool, max_fai
                 if recs.len() < max_fail {
                     let pre_ev = json!({"ev": "reset", "obj": case["obj"], "st": expected, "heads": heads});
                     let step = json!({"ev": "op", "obj": o2.kind(), "op": op.to_json(), "res": if r.is_ok() { 1 } else { 0 }, "st": act, "err": r.clone().err().unwrap_or_default()});
-                    recs.push(json!({"type": "fan", "log": case["log"], "heads": heads, "pre": expected, "op": op.to_json(),
+                    recs.push(json!({"type": "fan", "obj": case["obj"], "log": case["log"], "heads": heads, "pre": expected, "op": op.to_json(),
                                      "model_res": f[1], "expected": exp, "actual": act, "actual_res": if r.is_ok() { 1 } else { 0 },
-                                     "err": r.err(), "trace": if case["obj"] == "none" { json!([]) } else { json!([pre_ev, step]) }}));
+                                     "err": r.err().unwrap_or_default(), "trace": if case["obj"] == "none" { json!([]) } else { json!([pre_ev, step]) }}));
                 }
             } else if r.is_ok() != model_ok {
                 st.class_drift += 1;
